@@ -34,7 +34,7 @@ chk("C01", "exploration",
 chk("C02", "exploration",
     "Seeded search over per-step outcome sequences (who dies, 0..k secondaries, sub-cut ones, primaries arriving mid-flight, "
     "merged events), 1-64 slots, all 8 track orders, exact-fit initializer capacity (two-pass), checked step by step against a "
-    "reference track-set model (pending-initializer multiset + slot map) incl. the four reported counters and bounded termination.",
+    "reference track-set model (pending-initializer multiset + slot map) incl. the four reported counters and bounded termination; a step that does not end in a physics model action must report no secondaries (so a stale secondaries span cannot make phantom tracks look expected).",
     T_NOTE, "deterministic simulation: refinement against reference track-set model", "§5 C02", "T")
 chk("C05", "exploration",
     "Per-track step-chain relations over the same simulated histories: bitwise continuity post(k)=pre(k+1), time/energy monotone, "
